@@ -139,6 +139,109 @@ func isSentinel(n ast.Vertex) bool {
 	return ok && len(nm.Parts) == 1 && string(nm.Parts[0].(*ast.NamePart).Value) == "sentinel_9f"
 }
 
+// insertion is one case of the inserted-statement check: which list of the error-free tree, which
+// boundary in it, which malformed statement. It is recorded in the replay file (meta) so that the
+// case can be re-evaluated from the clean source alone.
+type insertion struct {
+	list     int // index into stmtLists(error-free tree)
+	boundary int
+	m        string
+}
+
+type insertionResult struct {
+	clause, msg string
+	edited      []byte
+	where       string
+	depth       int
+	skipped     bool // no insertion point / parser did not recover / panic (C01's business)
+	recovered   bool
+}
+
+// checkInsertion evaluates every clause of the inserted-statement check (plain function, no rapid).
+func checkInsertion(src []byte, v px.Ver, in insertion) insertionResult {
+	res := insertionResult{}
+	good := px.Parse(src, v, true)
+	if len(good.Errs) > 0 || good.Root == nil {
+		res.clause, res.msg, res.edited = "valid-rejected", fmt.Sprintf("[%s] generated valid program rejected: %s\nsource: %q", v, px.ErrString(good.Errs), src), src
+		return res
+	}
+	lists := stmtLists(good.Root)
+	if in.list >= len(lists) {
+		res.skipped = true
+		return res
+	}
+	lr := lists[in.list]
+	res.where, res.depth = lr.where, lr.depth
+	stmts, owner, ok := follow(good.Root, lr.path)
+	if !ok {
+		res.clause, res.msg = "internal", "path does not resolve in the error-free tree"
+		return res
+	}
+	k := in.boundary
+	if k > len(stmts) {
+		k = len(stmts)
+	}
+	// insertion offset: directly before the first token of statement k, or before the token that closes the list
+	at := -1
+	if k < len(stmts) {
+		if ts := astx.Tokens(stmts[k]); len(ts) > 0 && ts[0].Position != nil {
+			at = ts[0].Position.StartPos
+		}
+	} else {
+		at = endOfList(owner, good.Root, src)
+	}
+	if at < 0 {
+		res.skipped = true
+		return res
+	}
+	m := in.m
+	edited := append(append(append([]byte{}, src[:at]...), []byte(" "+m+tail)...), src[at:]...)
+	res.edited = edited
+	bad := px.Parse(edited, v, true)
+	harness.Eval()
+	if bad.Panic != "" {
+		res.skipped = true
+		return res
+	}
+	fail := func(clause, format string, a ...interface{}) insertionResult {
+		res.clause, res.msg = clause, fmt.Sprintf(format, a...)
+		return res
+	}
+	if len(bad.Errs) == 0 {
+		return fail("malformed-silent", "[%s] malformed statement %q inserted and no error reported\nedited: %q", v, m, edited)
+	}
+	if astx.IsNil(bad.Root) {
+		res.skipped = true
+		return res
+	}
+	res.recovered = true
+	got, _, ok := follow(bad.Root, lr.path)
+	if !ok {
+		return fail("list-lost", "[%s] after inserting %q into the statement list of %s (boundary %d) the parser recovered, but that list no longer exists in the returned tree\nedited: %q", v, m, lr.where, k, edited)
+	}
+	if len(got) < k {
+		return fail("prefix-lost", "[%s] %d well-formed statements precede the malformed %q in the list of %s, the returned tree keeps only %d\nedited: %q", v, k, m, lr.where, len(got), edited)
+	}
+	for i := 0; i < k; i++ {
+		if d := astx.Equal(got[i], stmts[i], astx.WithTokens|astx.WithPositions); d != "" {
+			return fail("prefix-changed", "[%s] statement #%d before the malformed %q differs from its error-free parse: %s\nedited: %q", v, i, m, d, edited)
+		}
+	}
+	found := false
+	for _, s := range got[k:] {
+		if isSentinel(s) {
+			found = true
+		}
+	}
+	if !found {
+		return fail("no-resume", "[%s] parsing did not continue after the malformed %q: the statement sentinel_9f(1); written after it is not in the list of %s\nedited: %q", v, m, lr.where, edited)
+	}
+	if cl, msg := printClause(edited, bad.Root); cl != "" {
+		return fail(cl, "[%s] %s\nedited: %q", v, msg, edited)
+	}
+	return res
+}
+
 func TestInsertedMalformedStatement(t *testing.T) {
 	harness.Check(t, "inserted-statement", 25000, 800000, func(rt *rapid.T) {
 		v := rapid.SampledFrom(px.KeyVersions).Draw(rt, "version")
@@ -146,76 +249,39 @@ func TestInsertedMalformedStatement(t *testing.T) {
 		o.NoHTML, o.NoHalt = true, true
 		c := progs.Draw(rt, v, o, 1, 5)
 		lay := c.G.Render(c.Root, progs.Policy(rt, phpgen.PolicySpace, nil))
-		src := lay.Src
+		src := append([]byte{}, lay.Src...)
 		good := px.Parse(src, v, true)
 		if len(good.Errs) > 0 || good.Root == nil {
 			harness.Fail(rt, "valid-rejected", src, meta(v), "[%s] generated valid program rejected: %s\nsource: %q", v, px.ErrString(good.Errs), src)
 		}
 		lists := stmtLists(good.Root)
-		lr := lists[rapid.IntRange(0, len(lists)-1).Draw(rt, "list")]
-		stmts, owner, ok := follow(good.Root, lr.path)
+		li := rapid.IntRange(0, len(lists)-1).Draw(rt, "list")
+		lr := lists[li]
+		stmts, _, ok := follow(good.Root, lr.path)
 		if !ok {
 			rt.Fatalf("internal: path does not resolve in the error-free tree")
 		}
 		k := rapid.IntRange(0, len(stmts)).Draw(rt, "boundary")
-		// insertion offset: directly before the first token of statement k, or before the token that closes the list
-		at := -1
-		if k < len(stmts) {
-			if ts := astx.Tokens(stmts[k]); len(ts) > 0 && ts[0].Position != nil {
-				at = ts[0].Position.StartPos
-			}
-		} else {
-			at = endOfList(owner, good.Root, src)
-		}
-		if at < 0 {
-			return
-		}
 		pool := malformed
 		if lr.where == "Root" && lr.depth == 0 {
 			pool = append(append([]string{}, malformed...), malformedTop...)
 		}
 		m := rapid.SampledFrom(pool).Draw(rt, "malformed")
-		edited := append(append(append([]byte{}, src[:at]...), []byte(" "+m+tail)...), src[at:]...)
-		bad := px.Parse(edited, v, true)
-		harness.Eval()
-		mt := map[string]string{"version": v.String(), "malformed": m, "list": lr.where, "boundary": fmt.Sprint(k)}
-		if bad.Panic != "" {
-			return
+		res := checkInsertion(src, v, insertion{li, k, m})
+		if res.clause != "" {
+			// the replay file holds the clean source; the case is rebuilt from the meta data
+			mt := map[string]string{"version": v.String(), "malformed": m, "list": lr.where, "list_index": fmt.Sprint(li), "boundary": fmt.Sprint(k), "input_is": "clean source (the malformed statement is inserted by the replay)"}
+			harness.Fail(rt, res.clause, src, mt, "%s", res.msg)
 		}
-		if len(bad.Errs) == 0 {
-			harness.Fail(rt, "malformed-silent", edited, mt, "[%s] malformed statement %q inserted and no error reported\nedited: %q", v, m, edited)
-		}
-		if astx.IsNil(bad.Root) {
-			harness.Class("no-recovery(root nil)")
+		if res.skipped {
+			if res.edited != nil {
+				harness.Class("no-recovery(root nil)")
+			}
 			return
 		}
 		harness.Class("recovered in " + lr.where)
-		got, _, ok := follow(bad.Root, lr.path)
-		if !ok {
-			harness.Fail(rt, "list-lost", edited, mt, "[%s] after inserting %q into the statement list of %s (boundary %d) the parser recovered, but that list no longer exists in the returned tree\nedited: %q", v, m, lr.where, k, edited)
-		}
-		if len(got) < k {
-			harness.Fail(rt, "prefix-lost", edited, mt, "[%s] %d well-formed statements precede the malformed %q in the list of %s, the returned tree keeps only %d\nedited: %q", v, k, m, lr.where, len(got), edited)
-		}
-		for i := 0; i < k; i++ {
-			if d := astx.Equal(got[i], stmts[i], astx.WithTokens|astx.WithPositions); d != "" {
-				harness.Fail(rt, "prefix-changed", edited, mt, "[%s] statement #%d before the malformed %q differs from its error-free parse: %s\nedited: %q", v, i, m, d, edited)
-			}
-		}
-		found := false
-		for _, s := range got[k:] {
-			if isSentinel(s) {
-				found = true
-			}
-		}
-		if !found {
-			harness.Fail(rt, "no-resume", edited, mt, "[%s] parsing did not continue after the malformed %q: the statement sentinel_9f(1); written after it is not in the list of %s\nedited: %q", v, m, lr.where, edited)
-		}
-		if cl, msg := printClause(edited, bad.Root); cl != "" {
-			harness.Fail(rt, cl, edited, mt, "[%s] %s\nedited: %q", v, msg, edited)
-		}
 		if k >= 1 && lr.depth >= 1 {
-			harness.NonTrivial(edited, fmt.Sprintf("[%s %q into %s at boundary %d, depth %d] %q", v, m, lr.where, k, lr.depth, trunc(edited, 240)))
+			harness.NonTrivial(res.edited, fmt.Sprintf("[%s %q into %s at boundary %d, depth %d] %q", v, m, lr.where, k, lr.depth, trunc(res.edited, 240)))
 		}
 		harness.Class("malformed=" + m)
 	})
@@ -370,6 +436,18 @@ func TestReplay(t *testing.T) {
 	}
 	for _, v := range px.AllVersions {
 		if vi.Meta["version"] != "" && vi.Meta["version"] != v.String() {
+			continue
+		}
+		if vi.Meta["list_index"] != "" {
+			// an inserted-statement case: src is the clean program, the insertion is in the meta data
+			var in insertion
+			fmt.Sscan(vi.Meta["list_index"], &in.list)
+			fmt.Sscan(vi.Meta["boundary"], &in.boundary)
+			in.m = vi.Meta["malformed"]
+			if res := checkInsertion(src, v, in); res.clause != "" {
+				harness.Failf(t, "inserted-statement/"+res.clause, src, vi.Meta, "%s", res.msg)
+				return
+			}
 			continue
 		}
 		r := px.Parse(src, v, true)
